@@ -134,7 +134,7 @@ func TestC10_Rewrites(t *testing.T) {
 }
 
 func TestC10_Compose(t *testing.T) {
-	rec := NewRecorder("C10", "compose", "rapid-generated E, F over a shared pool and an allowed list A; oracle: Satisfies('(E) AND (F)',A) == Satisfies(E,A) && Satisfies(F,A), and likewise OR; non-trivial = E and F differ and one of them has >= 2 leaves; distinct by (E,F,A)")
+	rec := NewRecorder("C10", "compose", "rapid-generated E, F over a shared pool and an allowed list A (a quarter of the cases: E, F = single versions or short chains of versions of one table family, A = one or two entries of that family, the first with '+'); oracle: Satisfies('(E) AND (F)',A) == Satisfies(E,A) && Satisfies(F,A), and likewise OR; non-trivial = E and F differ and one of them has >= 2 leaves or the case is of the family kind; distinct by (E,F,A)")
 	defer rec.Finish(t)
 	tb := Tbl()
 	rec.Rapid(t, func(rt *rapid.T) {
@@ -145,9 +145,35 @@ func TestC10_Compose(t *testing.T) {
 			tf = leafNode(0)
 		}
 		c := ComposeCase{E: te.Render(Texts(pool), DrawSpacer(rt)), F: tf.Render(Texts(pool), DrawSpacer(rt)), Allowed: Texts(tb.DrawAllowed(rt, pool, excPool, 6))}
+		rangeCover := false
+		if rapid.IntRange(0, 3).Draw(rt, "rangeCover") == 0 {
+			// few entries, many terms: E and F are single versions (or short AND / OR chains of versions) of one
+			// table family and the allowed list is one or two 'X+' entries of that family, so that one entry
+			// covers several different terms - the shape a counting or one-entry-per-term shortcut gets wrong
+			ids := famIDs(tb, rapid.SampledFrom(tb.Ranges).Draw(rt, "rcFam"))
+			if len(ids) >= 2 {
+				part := func(label string) string {
+					k := rapid.SampledFrom([]int{1, 1, 2, 3}).Draw(rt, label+"N")
+					op := rapid.SampledFrom([]string{" AND ", " AND ", " OR "}).Draw(rt, label+"Op")
+					var ts []string
+					for i := 0; i < k; i++ {
+						ts = append(ts, rapid.SampledFrom(ids).Draw(rt, fmt.Sprintf("%s%d", label, i)))
+					}
+					return strings.Join(ts, op)
+				}
+				c.E, c.F = part("rcE"), part("rcF")
+				c.Allowed = []string{rapid.SampledFrom(ids).Draw(rt, "rcA0") + "+"}
+				if rapid.IntRange(0, 2).Draw(rt, "rcTwo") == 0 {
+					c.Allowed = append(c.Allowed, rapid.SampledFrom(ids).Draw(rt, "rcA1"))
+				}
+				te, tf = leafNode(0), leafNode(0)
+				rangeCover = true
+				rec.Class("range-cover")
+			}
+		}
 		out := checkC10Compose(c)
 		re, rf := Satisfies(c.E, c.Allowed).OK, Satisfies(c.F, c.Allowed).OK
-		rec.Case(c.E != c.F && (te.Leaves() >= 2 || tf.Leaves() >= 2), c.E+" ; "+c.F+" | "+strings.Join(c.Allowed, ","), map[string]any{"e": c.E, "f": c.F, "allowed": c.Allowed}, fmt.Sprintf("E=%v,F=%v", re, rf))
+		rec.Case(c.E != c.F && (te.Leaves() >= 2 || tf.Leaves() >= 2 || rangeCover), c.E+" ; "+c.F+" | "+strings.Join(c.Allowed, ","), map[string]any{"e": c.E, "f": c.F, "allowed": c.Allowed}, fmt.Sprintf("E=%v,F=%v", re, rf))
 		if !out.OK {
 			rec.Fail(rt, "c10-compose", out.Key, out.Msg, c)
 		}
